@@ -100,14 +100,16 @@ PROPS = {
                      "the session may access the key"],
     ),
     "C09": dict(
-        units=["security", "store", "dispatch"],
+        units=["security", "store", "dispatch", "permissions"],
         kani=[K_AUTH, K_KIND],
         undecided=["dispatcher arms that are not a single guard call: Auth, UseDb (failed use-db leaving the selection untouched is checked by the bounded sweep only), "
                    "Resolve, ReplicateRequest (rp); the closure bodies handed to the guards are abstracted (R10), so WHAT an arm does once allowed is not verified here",
                    "mid-session permission changes",
-                   "the decision of a stored permission list (Permission::permissions_from_str + pattern matching: iterator pipelines, out of reach for "
-                   "Verus; Kani timed out at 7-15 min on 3-byte strings) is an uninterpreted function spec_list_grants"],
-        assumptions=["format!(\"$$permission_${}\", user) and format!(\"$$user_{}\", user) concatenate (trusted shims)"],
+                   "the text-level meaning of std's str::split / splitn (spec_split, head_of, tail_of are uninterpreted): the STRUCTURE of the decision of a stored permission list "
+                   "(statements, kind letters, per-pattern matcher, any-of-any) is proved on the real code in unit permissions, the splitting itself is std's"],
+        assumptions=["format!(\"$$permission_${}\", user) and format!(\"$$user_{}\", user) concatenate (trusted shims)",
+                     "unit permissions: iterator adapters (split / chars / map / collect / into_iter / any) are trusted R11 shims over the closures' own contracts; the closures are the real ones; "
+                     "Vec::contains is membership, derive(Clone) gives an equal value; fn pointers defunctionalised (R12)"],
     ),
     "C12": dict(
         units=["oplog"],
@@ -219,8 +221,8 @@ PROPS = {
         assumptions=["Change::new stamps the resolving change with the wall clock (any u64)"],
     ),
     "C10": dict(
-        units=["store", "consensus", "security", "ids", "oplog", "pending", "parser", "sessions", "http", "election", "snapshot", "sync", "listing"],
-        reachable={"listing": ["Database::list_keys", "filter_system_keys", "get_function_by_pattern", "starts_with", "ends_with", "contains", "Database::list_conflicts_keys",
+        units=["store", "consensus", "security", "ids", "oplog", "pending", "parser", "sessions", "http", "election", "snapshot", "sync", "listing", "permissions"],
+        reachable={"permissions": ["Permission::from", "Permission::permissions_from_str", "From<char>@PermissionKind::from", "has_permission"], "listing": ["Database::list_keys", "filter_system_keys", "get_function_by_pattern", "starts_with", "ends_with", "contains", "Database::list_conflicts_keys",
                                "Database::has_pendding_conflict", "Database::register_arbiter"], "sync": ["make_create_db_command", "get_full_sync_opps", "get_pendding_opps_since"], "snapshot": ["NodeDrive::storage_data_disk", "write_value", "write_key", "update_key", "write_new_key_value", "get_key_disk_size", "create_db_from_file_name", "ValueStatus::to_le_bytes"], "http": ["process_commands"], "election": ["election_eval", "start_election", "start_new_election", "election_win", "Databases::get_role", "Databases::is_eligible", "Databases::is_primary", "From<usize>@ClusterRole::from"], "store": STORE_FNS, "security": SECURITY_FNS, "pending": ["ReplicationMessage::new", "ReplicationMessage::ack", "ReplicationMessage::replicated", "ReplicationMessage::is_full_acknowledged",
                    "ReplicationMessage::count_replication", "ReplicationMessage::count_acknowledged", "ReplicationMessage::get_copy", "Databases::register_pending_opp",
                    "Databases::acknowledge_pending_opp", "Databases::get_pending_opp_copy"],
